@@ -223,6 +223,22 @@ pub fn c17(tier: &str, seed: u64) -> Report {
             }
         }
     }
+    // messages around the 16-bit length boundary: sampled cut points
+    for big in [65504usize, 65515, 65496, 65000] {
+        let mut m = refmsg::encode(0, 1, 5, &[(0x8888, vec![9u8; big])]);
+        if m.len() + 8 - 20 <= 65535 { refmsg::add_fingerprint(&mut m); }
+        if refmsg::decode(&m).is_err() { continue; }
+        for k in [0usize, 19, 20, 21, 1000, 65534, 65535, 65536, 65537, m.len() - 4, m.len() - 1] {
+            if k >= m.len() { continue; }
+            let p = &m[..k];
+            rep.case(true, &[&k.to_be_bytes()[..], &big.to_be_bytes()[..]].concat());
+            let exp = if k < 20 { 20 } else { m.len() };
+            match Message::from_bytes(p) {
+                Err(StunParseError::Truncated { expected, actual }) if expected == exp && actual == k => {}
+                other => rep.violate("C17:prefix", format!("prefix of {} bytes of a {}-byte message: expected Truncated{{{},{}}}, got {:?}", k, m.len(), exp, k, other.map(|_| "Ok")), format!("c17:big:{}:{}", big, k)),
+            }
+        }
+    }
     // header decoder vs "not non-STUN": random 20..24-byte buffers
     for _ in 0..n_cases(tier, 2000, 50000) {
         let n_ = 20 + rng.below(5) as usize; let mut b = rng.bytes(n_);
@@ -258,6 +274,9 @@ pub fn c09(tier: &str, seed: u64) -> Report {
         if rng.coin() { b.add_message_integrity(&creds_short("pass"), IntegrityAlgorithm::Sha1).unwrap(); }
         b.add_fingerprint().unwrap();
         let m = b.build();
+        let mut reused = vec![0xEEu8; m.len()];
+        let _ = b.write_into(&mut reused);
+        if reused != m || Message::from_bytes(&reused).is_err() { rep.violate("C09:builder-fingerprint-reused-buffer", format!("the fingerprinted message written into a reused buffer ({}) is not the built message / is refused: {:?}", hex_short(&reused), Message::from_bytes(&reused).err()), format!("c09:msg:{}", hex(&reused))); }
         let o = m.len() - 8;
         if m[o + 4..] != refmsg::fingerprint_value(&m[..o], m.len()) { rep.violate("C09:builder-fingerprint", format!("builder FINGERPRINT is not crc32(prefix with final length) ^ 0x5354554e in {}", hex_short(&m)), format!("c09:msg:{}", hex(&m))); }
         if i < 2 { rep.sample(format!("fingerprinted message {}", hex_short(&m))); }
@@ -393,6 +412,19 @@ pub fn c04(tier: &str, seed: u64) -> Report {
         if rng.coin() { refmsg::add_integrity(&mut m2, &key, false, 20); }
         refmsg::add_integrity(&mut m2, &key, true, *rng.pick(&[16usize, 20, 24, 28, 32]));
         check_buffer(&mut rep, "c04", &m2, &key, &creds, &fl, &mut rng);
+    }
+    // every combination of {absent, correct, wrong MAC} for MESSAGE-INTEGRITY and MESSAGE-INTEGRITY-SHA256 (both orders), with/without FINGERPRINT
+    {
+        let key = key_short("pass");
+        let creds = creds_short("pass");
+        let fl = Flags { c01: false, c02: false, c04: true, c10: false, c16: false };
+        for a in 0..3 { for b in 0..3 { for order in 0..2 { for fp in 0..2 { for trunc in [32usize, 16, 24] {
+            let mut m = refmsg::encode(2, 1, 0x77, &[(0x8022, b"combo".to_vec())]);
+            let mut add = |m: &mut Vec<u8>, sha256: bool, st: i32| { if st == 0 { return; } refmsg::add_integrity(m, &key, sha256, if sha256 { trunc } else { 20 }); if st == 2 { let l = m.len(); m[l - 2] ^= 0x04; } };
+            if order == 0 { add(&mut m, false, a); add(&mut m, true, b); } else { add(&mut m, true, b); add(&mut m, false, a); }
+            if fp == 1 { refmsg::add_fingerprint(&mut m); }
+            check_buffer(&mut rep, "c04", &m, &key, &creds, &fl, &mut rng);
+        } } } } }
     }
     // no integrity attribute => MissingAttribute
     let m = refmsg::encode(0, 1, 9, &[]);
